@@ -9,7 +9,8 @@ Open Scope Z_scope.
 
 Inductive case :=
 | CReorder (input : list (elem Z)) (out : list (elem Z))
-| CSeq (addc modm rep : Z) (batches : list (nat * list (elem Z))) (out : list (elem Z)).
+| CSeq (addc modm rep : Z) (batches : list (nat * list (elem Z))) (out : list (elem Z))
+| CJob (addc modm rep n : Z) (out : list Z).   (* whole sequential job over 0..n-1 on the engine *)
 
 Definition zout_eqb := list_eqb (elem_eqb Z.eqb).
 
@@ -24,6 +25,9 @@ Definition corr_ok (c : case) : bool :=
   | CReorder input out => zout_eqb (strip_fb (run reorder_machine input)) (strip_fb out)
   | CSeq a m r bs out =>
       zout_eqb (run (seq_chain a m r) (run (start_machine Z 1) (flatten_batches bs))) (strip_fb out)
+  | CJob a m r n out =>
+      (* the model of the whole path: the chain machine over the source's elements *)
+      list_eqb Z.eqb (payloads (run (seq_chain a m r) (map (fun i => Item (Z.of_nat i)) (seq 0 (Z.to_nat n))))) out
   end.
 
 (** the property on the implementation output *)
@@ -59,6 +63,10 @@ Definition prop_ok (c : case) : bool :=
       let expected := flat_map (fun v => repeat v (Z.to_nat r))
                         (filter (fun v => negb (Z.eqb (Z.modulo v m) 0)) (map (fun v => v + a) src)) in
       list_eqb Z.eqb (payloads (strip_fb out0)) expected
+  | CJob a m r n out =>
+      let src := map Z.of_nat (seq 0 (Z.to_nat n)) in
+      list_eqb Z.eqb out (flat_map (fun v => repeat v (Z.to_nat r))
+                           (filter (fun v => negb (Z.eqb (Z.modulo v m) 0)) (map (fun v => v + a) src)))
   end.
 
 Definition known_class (c : case) : N := 0%N.
